@@ -25,6 +25,14 @@ type SpecEnv struct {
 	pkg     string
 	fn      *ssa.Function // non-nil: identifiers may denote this function's parameters/locals
 	depth   int
+	macroLoop *loopInfo // inside a spec-function body: the loop of the invariant being translated (for freshl)
+}
+
+func (env *SpecEnv) enclosingLoop() *loopInfo {
+	if env.loop != nil {
+		return env.loop
+	}
+	return env.macroLoop
 }
 
 func (ex *exec) newEnv(cur, old *State) *SpecEnv {
@@ -467,6 +475,53 @@ func (env *SpecEnv) binary(x *SBinary) (Val, error) {
 }
 
 func (env *SpecEnv) quant(x *SQuant) (Val, error) {
+	// Pass 1 finds, for each bound integer variable, the slices it indexes directly; pass 2 re-expresses the
+	// variable as an absolute array index so that the solver's triggers (select (select H arr) j) contain no
+	// arithmetic on bound variables. When a variable indexes several slices, the formula is repeated once per
+	// slice (logically equivalent copies), so that a ground access to any of them instantiates it.
+	vc := env.vc
+	saved, savedPlain := vc.idxUses, vc.plainUses
+	vc.idxUses = map[string][]string{}
+	vc.plainUses = map[string]bool{}
+	_, err := env.quant1(x, nil)
+	uses := vc.idxUses
+	for name := range vc.plainUses {
+		delete(uses, name) // used directly as a ghost-map key or function argument: already a good trigger
+	}
+	vc.idxUses = saved
+	vc.plainUses = savedPlain
+	if err != nil {
+		return Val{}, err
+	}
+	copies := 1
+	for _, l := range uses {
+		if len(l) > copies {
+			copies = len(l)
+		}
+	}
+	if copies > 4 {
+		copies = 4
+	}
+	var parts []string
+	for c := 0; c < copies; c++ {
+		choice := map[string]string{}
+		for name, l := range uses {
+			k := c
+			if k >= len(l) {
+				k = len(l) - 1
+			}
+			choice[name] = l[k]
+		}
+		v, err := env.quant1(x, choice)
+		if err != nil {
+			return Val{}, err
+		}
+		parts = append(parts, v.T)
+	}
+	return Val{T: sAnd(parts...), S: SBool, Typ: boolT}, nil
+}
+
+func (env *SpecEnv) quant1(x *SQuant, absOf map[string]string) (Val, error) {
 	vc := env.vc
 	sub := env.child()
 	vc.quantDepth++
@@ -481,7 +536,13 @@ func (env *SpecEnv) quant(x *SQuant) (Val, error) {
 		vc.nfresh++
 		bn := fmt.Sprintf("%s!q%d", sanitize(v.Name), vc.nfresh)
 		s := vc.sorts.sortOf(ty)
-		sub.vars[v.Name] = Val{T: bn, S: s, Typ: ty}
+		val := Val{T: bn, S: s, Typ: ty}
+		if absOf == nil {
+			vc.qvarNames[bn] = v.Name
+		} else if base, ok := absOf[v.Name]; ok && s == SInt {
+			val.T = "(- " + bn + " (soff " + base + "))"
+		}
+		sub.vars[v.Name] = val
 		binders = append(binders, "("+bn+" "+s+")")
 		if _, isInt := intInfoOf(ty); !isInt {
 			if g := vc.sorts.typeInv(ty, bn, ""); g != "true" {
@@ -516,6 +577,31 @@ func (env *SpecEnv) quant(x *SQuant) (Val, error) {
 		body = "(! " + body + pat + ")"
 	}
 	return Val{T: "(" + q + " (" + strings.Join(binders, " ") + ") " + body + ")", S: SBool, Typ: boolT}, nil
+}
+
+// absIndex builds the absolute array index of element idx of slice term base.
+func (vc *VC) absIndex(base, idx string) string {
+	if vc.idxUses != nil {
+		if name, ok := vc.qvarNames[idx]; ok && !strings.Contains(base, "!q") {
+			dup := false
+			for _, b := range vc.idxUses[name] {
+				if b == base {
+					dup = true
+				}
+			}
+			if !dup {
+				vc.idxUses[name] = append(vc.idxUses[name], base)
+			}
+		}
+	}
+	suffix := " (soff " + base + "))"
+	if strings.HasPrefix(idx, "(- ") && strings.HasSuffix(idx, suffix) {
+		inner := idx[3 : len(idx)-len(suffix)]
+		if balanced(inner) && !strings.Contains(inner, " ") {
+			return inner
+		}
+	}
+	return "(+ (soff " + base + ") " + idx + ")"
 }
 
 func (env *SpecEnv) structOf(t types.Type) (types.Type, *types.Struct, bool) {
@@ -613,13 +699,14 @@ func (env *SpecEnv) index(base, idx Val) (Val, error) {
 			return Val{}, fmt.Errorf("index: slice value without slice type")
 		}
 		hi := vc.elemHeap(sl.Elem())
-		return Val{T: "(select (select " + vc.heapGet(env.cur, hi) + " (sarr " + base.T + ")) (+ (soff " + base.T + ") " + idx.T + "))", S: hi.valSort, Typ: sl.Elem()}, nil
+		return Val{T: "(select (select " + vc.heapGet(env.cur, hi) + " (sarr " + base.T + ")) " + vc.absIndex(base.T, idx.T) + ")", S: hi.valSort, Typ: sl.Elem()}, nil
 	case SStr:
 		return Val{T: "(gs.at " + base.T + " " + idx.T + ")", S: SInt, Typ: intT}, nil
 	}
 	if base.Typ != nil {
 		if m, ok := base.Typ.Underlying().(*types.Map); ok {
 			if strings.HasPrefix(base.S, "(Array") { // ghost total map
+				vc.notePlainUse(idx.T)
 				return Val{T: "(select " + base.T + " " + idx.T + ")", S: vc.ghostSort(m.Elem()), Typ: m.Elem()}, nil
 			}
 			// Go map: value or zero
@@ -756,6 +843,20 @@ func (env *SpecEnv) call(x *SCall) (Val, error) {
 			return Val{}, err
 		}
 		return Val{T: vc.fromIface(v.T, ty), S: vc.sorts.sortOf(ty), Typ: ty}, nil
+	case "freshl":
+		// freshl(r): reference r was allocated after the enclosing loop was entered (loop invariants only)
+		if env.enclosingLoop() == nil {
+			return Val{}, fmt.Errorf("freshl outside a loop invariant")
+		}
+		v, err := env.term(x.Args[0])
+		if err != nil {
+			return Val{}, err
+		}
+		t := v.T
+		if v.S == SSlice {
+			t = "(sarr " + v.T + ")"
+		}
+		return Val{T: "(>= " + t + " " + env.ex.loopPreRef[env.enclosingLoop().header] + ")", S: SBool, Typ: boolT}, nil
 	case "fresh":
 		// fresh(r): reference r was not allocated at function entry
 		v, err := env.term(x.Args[0])
@@ -830,6 +931,9 @@ func (env *SpecEnv) call(x *SCall) (Val, error) {
 			sorts = append(sorts, a.S)
 			ts = append(ts, a.T)
 		}
+		for _, a := range args {
+			vc.notePlainUse(a.T)
+		}
 		vc.declFun("sp_"+sf.Name, sorts, rs)
 		return Val{T: sApp("sp_"+sf.Name, ts...), S: rs, Typ: rt}, nil
 	}
@@ -837,7 +941,7 @@ func (env *SpecEnv) call(x *SCall) (Val, error) {
 		return Val{}, fmt.Errorf("spec function expansion too deep at %s (recursion?)", x.Fun)
 	}
 	// macro expansion: body evaluated in the caller's state with parameters bound
-	sub := &SpecEnv{ex: env.ex, vc: vc, cur: env.cur, old: env.old, vars: map[string]Val{}, pkg: sf.Pkg, depth: env.depth + 1}
+	sub := &SpecEnv{ex: env.ex, vc: vc, cur: env.cur, old: env.old, vars: map[string]Val{}, pkg: sf.Pkg, depth: env.depth + 1, macroLoop: env.enclosingLoop()}
 	if sub.pkg == "" {
 		sub.pkg = env.pkg
 	}
@@ -873,4 +977,147 @@ func loopBodyPos(li *loopInfo) token.Pos {
 		_ = n
 	}
 	return bodyLbrace(li) + 1
+}
+
+// ---------------------------------------------------------------------------
+// Splitting a goal into conjuncts (smaller queries, stable sub-names).
+
+type namedFormula struct {
+	name string
+	t    string
+}
+
+// splitGoal translates e and splits it along &&, predicate bodies and ∀-bodies.
+func (env *SpecEnv) splitGoal(e SExpr, name string) ([]namedFormula, error) {
+	switch x := e.(type) {
+	case *SBinary:
+		if x.Op == "&&" {
+			a, err := env.splitGoal(x.X, name)
+			if err != nil {
+				return nil, err
+			}
+			b, err := env.splitGoal(x.Y, name)
+			if err != nil {
+				return nil, err
+			}
+			return renumber(append(a, b...), name), nil
+		}
+		if x.Op == "==>" {
+			g, err := env.formula(x.X)
+			if err != nil {
+				return nil, err
+			}
+			parts, err := env.splitGoal(x.Y, name)
+			if err != nil {
+				return nil, err
+			}
+			for i := range parts {
+				parts[i].t = sImp(g, parts[i].t)
+			}
+			return parts, nil
+		}
+	case *SCall:
+		if sf, ok := env.vc.eng.specs[x.Fun]; ok && sf.Body != nil && sf.RetType == "bool" && len(x.Args) == len(sf.Params) && env.depth < 40 {
+			sub := &SpecEnv{ex: env.ex, vc: env.vc, cur: env.cur, old: env.old, vars: map[string]Val{}, pkg: sf.Pkg, depth: env.depth + 1, macroLoop: env.enclosingLoop()}
+			if sub.pkg == "" {
+				sub.pkg = env.pkg
+			}
+			for i, p := range sf.Params {
+				v, err := env.term(x.Args[i])
+				if err != nil {
+					return nil, err
+				}
+				pt, err := env.vc.eng.resolveType(p.Type, sf.Pkg)
+				if err != nil {
+					return nil, err
+				}
+				if v.S == "NIL" {
+					v = nilOf(Val{S: env.vc.sorts.sortOf(pt), Typ: pt})
+				}
+				v.Typ = pt
+				sub.vars[p.Name] = v
+			}
+			parts, err := sub.splitGoal(sf.Body, x.Fun)
+			if err != nil {
+				return nil, fmt.Errorf("in %s: %v", x.Fun, err)
+			}
+			for i := range parts {
+				parts[i].name = name + ":" + parts[i].name
+			}
+			return parts, nil
+		}
+		if x.Fun == "old" && len(x.Args) == 1 {
+			sub := env.child()
+			sub.cur = env.old
+			sub.results = nil
+			sub.loop = nil
+			return sub.splitGoal(x.Args[0], name)
+		}
+	case *SQuant:
+		if x.Forall && len(x.Triggers) == 0 {
+			// ∀x. G ==> (A && B)  ≡  (∀x. G ==> A) && (∀x. G ==> B)
+			var guard SExpr
+			body := x.Body
+			if b, ok := body.(*SBinary); ok && b.Op == "==>" {
+				guard, body = b.X, b.Y
+			}
+			conj := flattenAnd(body)
+			if len(conj) > 1 {
+				var out []namedFormula
+				for _, c := range conj {
+					var nb SExpr = c
+					if guard != nil {
+						nb = &SBinary{"==>", guard, c}
+					}
+					t, err := env.formula(&SQuant{Forall: true, Vars: x.Vars, Body: nb})
+					if err != nil {
+						return nil, err
+					}
+					out = append(out, namedFormula{name, t})
+				}
+				return renumber(out, name), nil
+			}
+		}
+	}
+	t, err := env.formula(e)
+	if err != nil {
+		return nil, err
+	}
+	return []namedFormula{{name, t}}, nil
+}
+
+func flattenAnd(e SExpr) []SExpr {
+	if b, ok := e.(*SBinary); ok && b.Op == "&&" {
+		return append(flattenAnd(b.X), flattenAnd(b.Y)...)
+	}
+	return []SExpr{e}
+}
+
+// renumber gives parts that share the plain name distinct ordinal suffixes.
+func renumber(parts []namedFormula, name string) []namedFormula {
+	n := 0
+	for _, p := range parts {
+		if p.name == name || strings.HasPrefix(p.name, name+"/") {
+			n++
+		}
+	}
+	if n <= 1 {
+		return parts
+	}
+	k := 0
+	for i := range parts {
+		if parts[i].name == name || strings.HasPrefix(parts[i].name, name+"/") {
+			k++
+			parts[i].name = fmt.Sprintf("%s/%d", name, k)
+		}
+	}
+	return parts
+}
+
+func (vc *VC) notePlainUse(t string) {
+	if vc.plainUses != nil {
+		if name, ok := vc.qvarNames[t]; ok {
+			vc.plainUses[name] = true
+		}
+	}
 }
